@@ -170,8 +170,17 @@ pub fn run(args: &Args, rec: &mut Recorder) {
         let source = rng.below(5);
         rec.bump(&format!("definition.{}", source_label(source)));
         let other: Option<(Def, String)> = if source >= 3 {
-            let d = gen_def_prefixed(rng, "OT_");
-            let t = render_def(&d, rng);
+            // the other definition must not be able to claim an instance of `def`: its tags and enum
+            // items are disjoint by prefix, but a non-strict load also accepts a bare word where a
+            // char[n] string is expected (and writes it back quoted), so the other definition holds
+            // no strings
+            let (d, t) = loop {
+                let d = gen_def_prefixed(rng, "OT_");
+                let t = render_def(&d, rng);
+                if !t.contains("char[") && !t.contains("char [") {
+                    break (d, t);
+                }
+            };
             Some((d, t))
         } else {
             None
